@@ -25,9 +25,14 @@ CHECKS = {
         'Transaction, Compiler.compile_in_tx, worker LAST_STATE reuse, dbview bookkeeping) gives exactly the replies and compiles every statement against '
         'exactly the payload of a PostgreSQL-style transaction specification; plus refutation witnesses for the three defects found (two repaired by fix: '
         'commits, one known finding). The model is tied to /repo on every run: the real dbstate, compile_in_tx, _compile_ql_transaction, worker.compile_in_tx '
-        'and AbstractPool.compile_in_tx execute the same histories as the extracted model and all replies/seen payloads are compared.',
-   note='Trusted: Coq kernel; extraction (cross-checked by vm_compute on a sample); harness. Modelled, not executed: dbview.pyx/execute.pyx/binary.pyx '
-        'bookkeeping (transliterated), the per-statement compile loop for SET ALIAS/DDL, PostgreSQL itself (oracle). No axioms.'),
+        'and AbstractPool.compile_in_tx execute the same histories as the extracted model and all replies/seen payloads are compared; the server side '
+        '(edb/server/dbview/dbview.pyx: DatabaseIndex, Database, DatabaseConnectionView incl. parse/_compile/start/on_success/on_error/savepoint bookkeeping; '
+        'edb/server/protocol/execute.pyx: execute(); edb/server/cache/stmt_cache.pyx) is no longer transliterated: a fail-closed source translator '
+        '(harness/translate/pyx2py.py, which strips only the Cython declaration layer and applies the .pxd attribute defaults) turns the CURRENT text of those '
+        'files into Python on every run and the histories are executed by that text against a scripted backend connection.',
+   note='Trusted: Coq kernel; extraction (cross-checked by vm_compute on a sample); harness. The pyx2py translator and its loader (Cython semantics assumed identical to Python for the '
+        'translated bodies; C integer attributes as Python ints). Modelled, not executed: the three-way dispatch of binary.pyx EdgeConnection.execute, _execute_rollback '
+        'and the main-loop error handler (transliterated), dbview.serialize_state (constant), the per-statement compile loop for SET ALIAS/DDL, PostgreSQL itself (oracle). No axioms.'),
  'C04': dict(
    category='proof', design_ref='DESIGN.md section 4, C04 (+ section 9 change log)',
    technique='Coq invariant proof over all raw-operation histories of a model of FlatSchema/ChainedSchema indexes; differential correspondence model vs real FlatSchema op by op; referential-integrity / frozen-snapshot monitors on real DDL histories',
@@ -91,7 +96,7 @@ CHECKS = {
    text='PARTIAL. Proved for all abstract schemas A, B, all valid matchings (whichever plan the similarity heuristic picks) and all dependency-respecting orders: applying the diff to A gives exactly B, nothing of A outside B remains, the planner (using the C20 sort_ex model) never returns a plan that errors; partition theorems for the delta_objects transliteration '
         '(every new object created xor paired, every old object deleted xor paired, alter only for 0.6 < similarity < 1). Tie: the real edb.schema.delta.delta_objects on stub objects with scripted compare vs the model (exact), and the real top-level partition of every accepted migration checked by the extracted checker. '
         'The end-to-end statement is decided on the REAL code by differential monitors (not proofs): generated schema pairs over a feature grammar with ~80 mutation operators through apply_sdl -> delta_schemas -> ddlast_from_delta -> CREATE MIGRATION, in three forms (committed schema, command tree applied directly, migration text replayed); '
-        'equivalence = the repo\'s own delta_schemas is empty AND an independent structural dump is equal. Six genuine defects are known findings.',
+        'equivalence = the repo\'s own delta_schemas is empty AND an independent structural dump is equal. Six genuine defects are known findings. Since round 2 every second generated pair is also driven through the SERVER compiler\'s migration block (edb/server/compiler/ddl.py) on a compiler connection state: START/POPULATE/COMMIT MIGRATION, and an interactive session (DESCRIBE CURRENT MIGRATION AS JSON; proposals executed or rejected with ALTER CURRENT MIGRATION REJECT PROPOSED by a deterministic policy; POPULATE; COMMIT): whenever COMMIT MIGRATION is accepted the result must be the target.',
    note='Trusted: Coq kernel; extraction; harness (generator, structural dump, classifier); vrt substrate. NOT modelled: the real compare / as_alter_delta / _get_ast / linearize_delta / apply code of ~40 object classes — mutations there are caught by the monitors, not by a broken proof. Planner completeness is not proved. The testbase migration path (run_ddl) is used, not the server compiler path. No axioms.'),
  'C10': dict(
    category='proof', design_ref='DESIGN.md section 4, C02/C10/C03/C11 (+ section 9 change log)',
@@ -110,10 +115,10 @@ CHECKS = {
         'Not modelled: prune_all_connections (HA failover), caller cancellation of acquire(), logging/snapshots, _NaivePool, pool2. No axioms.'),
  'C16': dict(
    category='proof', design_ref='DESIGN.md section 4, C16 (+ section 9 change log)',
-   technique='Coq invariants (no lost wake-up, retry-or-abort) over the shared pool model plus a machine-checked refutation of the full liveness statement; fair-drain liveness monitor on the real Pool',
-   text='PARTIAL. Proved for every reachable state of the pool model (any events, any oracle values): a block with queued waiters never has more idle connections than wake-ups already scheduled (no lost wake-up), at quiescence no block has both an idle connection and a queued waiter, a failed connect schedules exactly one retry or (retries exhausted / 3D000) fails every waiter of the block. '
+   technique='Coq invariants (no lost wake-up, retry-or-abort, tick chain never stops while an acquire() is pending) over the shared pool model plus a machine-checked refutation of the full liveness statement; fair-drain liveness monitor on the real Pool',
+   text='PARTIAL. Proved for every reachable state of the pool model (any events, any oracle values): a block with queued waiters never has more idle connections than wake-ups already scheduled (no lost wake-up), at quiescence no block has both an idle connection and a queued waiter, a failed connect schedules exactly one retry or (retries exhausted / 3D000) fails every waiter of the block; while any acquire() is pending the periodic tick timer is armed and a firing tick re-arms it first (C16_tick_chain_alive / C16_tick_rearms, Pool/TickProofs.v) - the precondition of every Mode C/D rescue path. '
         'The full statement "a state at rest has no blocked acquire" is REFUTED in Coq (C16_full_refuted) by a recorded real trace that is replayed on the implementation on every run; the progress theorems sketched in DESIGN were dropped because the faithful model exhibits stuck states. '
-        'On the real Pool every generated schedule is driven to quiescence by a fair, progress-based scheduler (all holders release, connects complete, ticks/GC fire) and every acquire must have returned or received the connect error; starved requests are classified by three known-finding ids, anything else is a VIOLATION.',
+        'On the real Pool every generated schedule is driven to quiescence by a fair, progress-based scheduler (all holders release, connects complete, ticks/GC fire) and every acquire must have returned or received the connect error; starved requests are classified by three known-finding ids (only when the tick timer is still armed, as the theorem says it must be), anything else is a VIOLATION.',
    note='Same model, harness and trusted base as C15. Liveness itself is NOT proved (it is false of the pinned code in the three known-finding classes); the fair-drain monitor is an exploration, not a proof. No axioms.'),
  'C08': dict(
    category='proof', design_ref='DESIGN.md section 4, C08 (+ section 9 change log)',
